@@ -345,7 +345,14 @@ pub enum Outcome {
     Panic,
 }
 
+/// where the case being handed to the library is noted, so that an abort of the whole process (a panic inside a
+/// rayon job cannot be caught) still leaves a concrete input behind for the check to report
+pub static CURRENT_CASE_FILE: std::sync::OnceLock<String> = std::sync::OnceLock::new();
+
 pub fn run_case(input: &[u8], opts: &HOpts) -> Outcome {
+    if let Some(p) = CURRENT_CASE_FILE.get() {
+        let _ = std::fs::write(p, format!("{{\"input_png_hex\": {}, \"options\": {}}}", jstr(&hex(input)), jstr(&opts.show())));
+    }
     let o = opts.to_oxi();
     match catch(|| oxipng::optimize_from_memory(input, &o)) {
         Some(Ok(v)) => Outcome::Ok(v),
